@@ -6,7 +6,7 @@ CONSTANTS
  Vars = {"opt"}
  Ns = {2, 3}
  MsgVecs <- MV23
- CCoins <- AllZq
+ CCoins <- C6
  SCoins <- C2d
  Tamper = FALSE
  PowM <- TabPowM
